@@ -43,7 +43,7 @@ def gen_cases(tier, seed):
         for kind in ("rhf", "uhf"):
             cases.append({"type": "mol", "kind": kind, "mol": m, "s": int(rng.integers(1 << 30)), "group": "mol-%s-%s" % (m, kind), "cost": 5})
     for rep in range(100 if q else 6000):
-        cases.append({"type": "eigh", "n": int(rng.integers(2, 8)), "spec": str(rng.choice(["generic", "generic", "generic", "degenerate", "near", "identity", "zero"])),
+        cases.append({"type": "eigh", "n": int(rng.integers(2, 8)), "spec": str(rng.choice(["generic", "generic", "shifted", "shifted", "degenerate", "near", "identity", "zero"])),
                       "s": int(rng.integers(1 << 30)), "group": "eigh-%d" % (rep % 6)})
     return cases
 
@@ -273,8 +273,11 @@ def run_eigh(case):
     n = case["n"]
     q, _ = np.linalg.qr(rng.normal(size=(n, n)))
     spec = case["spec"]
-    if spec == "generic":
+    if spec in ("generic", "shifted"):
         w = np.sort(rng.normal(size=n) * 2)
+        if spec == "shifted":
+            # close but clearly distinct levels at large absolute energy (core-like levels, constant shifts)
+            w = np.sort(np.concatenate([w[: n // 2], w[: n - n // 2] * 1e-3])) + float(rng.choice([-1.0, 1.0])) * float(rng.choice([50.0, 500.0, 3000.0]))
         for i in range(1, n):
             if w[i] - w[i - 1] < 1e-3:
                 w[i:] += 2e-3
@@ -306,10 +309,10 @@ def run_eigh(case):
     cnt = {"eigh_jvp": 0, "eigh_degenerate": 0}
     fin = bool(np.all(np.isfinite(dw)) and np.all(np.isfinite(dv)) and np.all(np.isfinite(vl)))
     events.append(ev("eigh/derivative-finite", fin, key="C18/eigh/finite/%s" % spec, spec=spec, n=n))
-    if spec != "generic":
+    if spec not in ("generic", "shifted"):
         cnt["eigh_degenerate"] = 1
     gaps = np.diff(wl)
-    if spec == "generic" and fin and gaps.min() >= 1e-3:
+    if spec in ("generic", "shifted") and fin and gaps.min() >= 1e-3:
         M = vl.T @ dA @ vl
         dw_ref = np.diag(M)
         dv_ref = np.zeros((n, n))
@@ -317,11 +320,12 @@ def run_eigh(case):
             for j in range(n):
                 if i != j:
                     dv_ref[:, i] += vl[:, j] * M[j, i] / (wl[i] - wl[j])
-        events.append(judge("eigh/eigenvalue-derivative", float(np.max(np.abs(dw - dw_ref))), 1e-10 * max(1.0, np.abs(dA).max()), "C18/eigh/dw"))
-        events.append(judge("eigh/eigenvector-derivative", float(np.max(np.abs(dv - dv_ref))), 1e-9 / gaps.min() * max(1.0, np.abs(dA).max()), "C18/eigh/dv",
-                            mingap=float(gaps.min())))
+        wscale = max(1.0, float(np.max(np.abs(wl))))   # round-off of the eigenvalue differences scales with |w|
+        events.append(judge("eigh/eigenvalue-derivative", float(np.max(np.abs(dw - dw_ref))), 1e-10 * max(1.0, np.abs(dA).max()), "C18/eigh/dw/" + spec))
+        events.append(judge("eigh/eigenvector-derivative", float(np.max(np.abs(dv - dv_ref))), 1e-9 * wscale / gaps.min() ** 2 * max(1.0, np.abs(dA).max()) * 1e-3 + 1e-9 / gaps.min(),
+                            "C18/eigh/dv/" + spec, mingap=float(gaps.min()), wmax=wscale))
         cnt["eigh_jvp"] = 1
-    return {"events": events, "nontrivial": spec == "generic" or n >= 2, "sample": {"n": n, "spec": spec, "min_gap": float(gaps.min()) if n > 1 else None,
+    return {"events": events, "nontrivial": spec in ("generic", "shifted") or n >= 2, "sample": {"n": n, "spec": spec, "min_gap": float(gaps.min()) if n > 1 else None,
                                                                                    "dv_max": float(np.max(np.abs(dv))) if fin else None}, "counters": cnt}
 
 
